@@ -324,11 +324,14 @@ def _check_vti_file(raw, n, size, scale_val, tags_expect, ctx):
     for a in v["arrays"]:
         tag, idx = F.match_name(a["name"], tags)
         require(tag is not None, "vti/unexpected-array-in-file", name=a["name"], expected_tags=tags)
+        require((tag, idx) not in found, "vti/array-names-not-unique", names=names)
         found[(tag, idx)] = a
     nvals = 0
     for tag, exp in tags_expect.items():
         for e in exp:
             a = found.pop((tag, e["index"]), None)
+            if a is None and e["index"] is None:
+                a = found.pop((tag, 0), None)      # a single vector written as member 0 of a block names it just as well
             if a is None:
                 have = sorted(str(k) for k in found if k[0] == tag)
                 raise Violation("vti/array-missing-from-file", tag=tag, index=e["index"], other_entries_of_tag=have, names=names)
